@@ -1,0 +1,269 @@
+//! Verification hooks (only with cargo feature `verif-hooks`).
+//!
+//! Nothing in this module is part of the supported API. It exists so that
+//! an external verification harness can observe the crate:
+//!
+//! - poison: overwrite freshly resized working memory with pseudo-random bytes,
+//! - feature mask: restrict the CPU features the default engine may report,
+//! - ISA counters: which `#[target_feature]` entry points were executed,
+//! - table-initialisation events: begin/end of each lazily initialised table,
+//! - snapshots: the bookkeeping state of encoder/decoder working space.
+
+use std::cell::{Cell, RefCell};
+use std::sync::atomic::{AtomicU64, Ordering};
+use std::sync::Mutex;
+
+// ======================================================================
+// POISON
+
+thread_local! {
+    static POISON_SEED: Cell<u64> = const { Cell::new(0) };
+}
+
+static POISON_COUNTER: AtomicU64 = AtomicU64::new(0);
+
+/// Sets the poison seed of the current thread. `0` turns poisoning off.
+pub fn set_poison(seed: u64) {
+    POISON_SEED.with(|s| s.set(seed));
+}
+
+/// Returns the poison seed of the current thread.
+pub fn poison() -> u64 {
+    POISON_SEED.with(Cell::get)
+}
+
+/// Overwrites `data` with a never-repeating pseudo-random stream
+/// if poisoning is on for the current thread.
+pub(crate) fn poison_fill(data: &mut [[u8; 64]]) {
+    let seed = poison();
+    if seed == 0 {
+        return;
+    }
+    let n = POISON_COUNTER.fetch_add(1, Ordering::Relaxed);
+    let mut state = seed ^ n.wrapping_mul(0x9E37_79B9_7F4A_7C15) ^ 0xD1B5_4A32_D192_ED03;
+    for chunk in data.iter_mut() {
+        for eight in chunk.chunks_exact_mut(8) {
+            // splitmix64
+            state = state.wrapping_add(0x9E37_79B9_7F4A_7C15);
+            let mut z = state;
+            z = (z ^ (z >> 30)).wrapping_mul(0xBF58_476D_1CE4_E5B9);
+            z = (z ^ (z >> 27)).wrapping_mul(0x94D0_49BB_1331_11EB);
+            z ^= z >> 31;
+            // Never produce an all-zero word: stale memory that happens to be
+            // zero would hide a missing zero-fill.
+            eight.copy_from_slice(&(z | 0x0101_0101_0101_0101).to_le_bytes());
+        }
+    }
+}
+
+// ======================================================================
+// FEATURE MASK
+
+/// Bit of [`set_feature_mask`]: AVX2 may be reported.
+pub const FEATURE_AVX2: u32 = 1;
+/// Bit of [`set_feature_mask`]: SSSE3 may be reported.
+pub const FEATURE_SSSE3: u32 = 2;
+/// Bit of [`set_feature_mask`]: Neon may be reported.
+pub const FEATURE_NEON: u32 = 4;
+
+thread_local! {
+    static FEATURE_MASK: Cell<u32> = const { Cell::new(u32::MAX) };
+}
+
+/// Restricts the CPU features the default engine may detect on this thread.
+/// The effective set is the intersection with what the CPU really reports.
+pub fn set_feature_mask(mask: u32) {
+    FEATURE_MASK.with(|m| m.set(mask));
+}
+
+/// Returns `true` if the named feature is allowed by the mask of this thread.
+pub fn feature_allowed(name: &str) -> bool {
+    let bit = match name {
+        "avx2" => FEATURE_AVX2,
+        "ssse3" => FEATURE_SSSE3,
+        "neon" => FEATURE_NEON,
+        _ => return true,
+    };
+    FEATURE_MASK.with(|m| m.get() & bit != 0)
+}
+
+// ======================================================================
+// ISA COUNTERS
+
+/// Instruction sets with `#[target_feature]` entry points.
+pub const ISAS: [&str; 3] = ["avx2", "ssse3", "neon"];
+/// Entry points counted per instruction set.
+pub const ENTRIES: [&str; 4] = ["fft", "ifft", "mul", "eval_poly"];
+
+thread_local! {
+    static ISA_COUNTS: Cell<[[u64; 4]; 3]> = const { Cell::new([[0; 4]; 3]) };
+}
+
+/// Counts one execution of a `#[target_feature]` entry point on this thread.
+pub(crate) fn record_isa(isa: usize, entry: usize) {
+    ISA_COUNTS.with(|c| {
+        let mut v = c.get();
+        v[isa][entry] += 1;
+        c.set(v);
+    });
+}
+
+/// Returns and clears the ISA counters of this thread,
+/// indexed by [`ISAS`] and [`ENTRIES`].
+pub fn take_isa_counts() -> [[u64; 4]; 3] {
+    ISA_COUNTS.with(|c| c.replace([[0; 4]; 3]))
+}
+
+// ======================================================================
+// TABLE INITIALISATION EVENTS
+
+/// One begin or end of a table initialiser.
+#[derive(Clone, Debug)]
+pub struct InitEvent {
+    /// Process-wide sequence number.
+    pub seq: u64,
+    /// Opaque id of the thread that ran the initialiser.
+    pub thread: u64,
+    /// Table name.
+    pub table: &'static str,
+    /// `true` for begin, `false` for end.
+    pub begin: bool,
+}
+
+static INIT_SEQ: AtomicU64 = AtomicU64::new(0);
+static INIT_EVENTS: Mutex<Vec<InitEvent>> = Mutex::new(Vec::new());
+static THREAD_IDS: AtomicU64 = AtomicU64::new(1);
+
+thread_local! {
+    static THREAD_ID: Cell<u64> = const { Cell::new(0) };
+    static INIT_DEPTH: RefCell<Vec<&'static str>> = const { RefCell::new(Vec::new()) };
+}
+
+/// Small process-unique id of the current thread.
+pub fn thread_id() -> u64 {
+    THREAD_ID.with(|t| {
+        if t.get() == 0 {
+            t.set(THREAD_IDS.fetch_add(1, Ordering::Relaxed));
+        }
+        t.get()
+    })
+}
+
+/// Returns `true` while the current thread is inside a table initialiser.
+pub fn in_table_init() -> bool {
+    INIT_DEPTH.with(|d| !d.borrow().is_empty())
+}
+
+fn push_init_event(table: &'static str, begin: bool) {
+    let seq = INIT_SEQ.fetch_add(1, Ordering::SeqCst);
+    let ev = InitEvent {
+        seq,
+        thread: thread_id(),
+        table,
+        begin,
+    };
+    INIT_EVENTS
+        .lock()
+        .unwrap_or_else(std::sync::PoisonError::into_inner)
+        .push(ev);
+}
+
+/// Records begin on creation and end on drop of a table initialiser.
+pub(crate) struct InitGuard(&'static str);
+
+impl InitGuard {
+    pub(crate) fn new(table: &'static str) -> Self {
+        INIT_DEPTH.with(|d| d.borrow_mut().push(table));
+        push_init_event(table, true);
+        Self(table)
+    }
+}
+
+impl Drop for InitGuard {
+    fn drop(&mut self) {
+        push_init_event(self.0, false);
+        INIT_DEPTH.with(|d| {
+            d.borrow_mut().pop();
+        });
+    }
+}
+
+/// Returns and clears all recorded table-initialisation events.
+pub fn take_init_events() -> Vec<InitEvent> {
+    std::mem::take(
+        &mut *INIT_EVENTS
+            .lock()
+            .unwrap_or_else(std::sync::PoisonError::into_inner),
+    )
+}
+
+// ======================================================================
+// SNAPSHOTS
+
+/// Bookkeeping state of an `EncoderWork`.
+#[derive(Clone, Debug, PartialEq, Eq)]
+pub struct EncoderSnapshot {
+    /// Configured `original_count`.
+    pub original_count: usize,
+    /// Configured `recovery_count`.
+    pub recovery_count: usize,
+    /// Configured `shard_bytes`.
+    pub shard_bytes: usize,
+    /// Number of original shards added in this round.
+    pub original_received_count: usize,
+    /// Number of work shards.
+    pub work_count: usize,
+    /// Address of the shard buffer.
+    pub data_ptr: usize,
+    /// Length of the shard buffer in 64-byte blocks.
+    pub data_len: usize,
+    /// Capacity of the shard buffer in 64-byte blocks.
+    pub data_capacity: usize,
+}
+
+/// Bookkeeping state of a `DecoderWork`.
+#[derive(Clone, Debug, PartialEq, Eq)]
+pub struct DecoderSnapshot {
+    /// Configured `original_count`.
+    pub original_count: usize,
+    /// Configured `recovery_count`.
+    pub recovery_count: usize,
+    /// Configured `shard_bytes`.
+    pub shard_bytes: usize,
+    /// Number of original shards added in this round.
+    pub original_received_count: usize,
+    /// Number of recovery shards added in this round.
+    pub recovery_received_count: usize,
+    /// Indexes of original shards marked received, ascending.
+    pub received_original: Vec<usize>,
+    /// Indexes of recovery shards marked received, ascending.
+    pub received_recovery: Vec<usize>,
+    /// Number of set bits of the received bitmap that belong to
+    /// neither an original nor a recovery index.
+    pub received_elsewhere: usize,
+    /// Work position of original shard 0.
+    pub original_base_pos: usize,
+    /// Work position of recovery shard 0.
+    pub recovery_base_pos: usize,
+    /// Number of work shards.
+    pub work_count: usize,
+    /// Address of the shard buffer.
+    pub data_ptr: usize,
+    /// Length of the shard buffer in 64-byte blocks.
+    pub data_len: usize,
+    /// Capacity of the shard buffer in 64-byte blocks.
+    pub data_capacity: usize,
+    /// Length of the received bitmap in bits.
+    pub bitmap_len: usize,
+}
+
+/// Inner rate of a default-rate codec.
+#[derive(Clone, Copy, Debug, PartialEq, Eq)]
+pub enum InnerRate {
+    /// Inner codec is the high-rate one.
+    High,
+    /// Inner codec is the low-rate one.
+    Low,
+    /// Inner codec is missing (only legal temporarily inside `reset`).
+    None,
+}
